@@ -20,6 +20,7 @@ import (
 	"errors"
 	"fmt"
 	"io"
+	"math"
 	"net/http"
 	"net/url"
 	"strconv"
@@ -30,6 +31,7 @@ import (
 
 	"github.com/henrylee2cn/erpc/v6"
 	"github.com/henrylee2cn/erpc/v6/codec"
+	"github.com/henrylee2cn/erpc/v6/socket"
 	"github.com/henrylee2cn/erpc/v6/utils"
 	"github.com/henrylee2cn/erpc/v6/xfer"
 	"github.com/henrylee2cn/erpc/v6/xfer/gzip"
@@ -285,7 +287,9 @@ func (h *httproto) Unpack(m erpc.Message) error {
 				goutil.BytesToString(firstLine), goutil.BytesToString(msg))
 		}
 		size += len(firstLine)
-		m.SetSize(uint32(size))
+		if err = m.SetSize(uint32(size)); err != nil {
+			return err
+		}
 		if ok {
 			return m.UnmarshalBody(bb.B)
 		}
@@ -316,7 +320,9 @@ func (h *httproto) Unpack(m erpc.Message) error {
 			goutil.BytesToString(firstLine), goutil.BytesToString(msg))
 	}
 	size += len(firstLine)
-	m.SetSize(uint32(size))
+	if err = m.SetSize(uint32(size)); err != nil {
+		return err
+	}
 	return m.UnmarshalBody(bb.B)
 }
 
@@ -398,6 +404,13 @@ func (h *httproto) unpack(m erpc.Message, bb *utils.ByteBuffer) (size int, msg [
 	if bodySize <= 0 {
 		return size, msg, nil
 	}
+	// check the read limit before allocating the announced body size
+	if bodySize > math.MaxInt32 {
+		return 0, nil, socket.ErrExceedMessageSizeLimit
+	}
+	if err = m.SetSize(uint32(size)); err != nil {
+		return 0, nil, err
+	}
 	bb.ChangeLen(bodySize)
 	_, err = io.ReadFull(h.rw, bb.B)
 	if err != nil {
@@ -428,5 +441,9 @@ func (h *httproto) readLine(bb *utils.ByteBuffer) error {
 			return nil
 		}
 		bb.Write(oneByte)
+		// a line cannot be longer than a whole message
+		if uint32(bb.Len()) > socket.MessageSizeLimit() {
+			return socket.ErrExceedMessageSizeLimit
+		}
 	}
 }
